@@ -362,6 +362,30 @@ TOKEN = set(b"!#$%&'*+-.^_`|~0123456789abcdefghijklmnopqrstuvwxyzABCDEFGHIJKLMNO
 COOKIE_OCTET = set([0x21] + list(range(0x23, 0x2c)) + list(range(0x2d, 0x3b)) + list(range(0x3c, 0x5c)) + list(range(0x5d, 0x7f)))
 
 
+def ref_lookup(elems, mask, key):
+    """the documented look-up: the first element of one of the kinds in `mask` whose name equals `key`
+    ignoring ASCII case (same length, never a prefix); elems = [(kind, name, value-or-None)] -> (found, value)"""
+    for kind, name, value in elems:
+        if (kind & mask) and len(name) == len(key) and name.lower() == key.lower():
+            return True, value
+    return False, None
+
+
+def parse_lk(s):
+    """'[1:6162>=6364,2:6162>-,8:6162>~!z]' -> [(kind, key, res, zbad)]; res: '-' | '~' | bytes"""
+    out = []
+    s = s.strip("[]")
+    for ent in s.split(",") if s else []:
+        zbad = ent.endswith("!z")
+        if zbad:
+            ent = ent[:-2]
+        lhs, rhs = ent.split(">", 1)
+        k, keyhex = lhs.split(":", 1)
+        res = rhs if rhs in ("-", "~") else bytes.fromhex(rhs[1:])
+        out.append((int(k), bytes.fromhex(keyhex) if keyhex not in ("", "-") else b"", res, zbad))
+    return out
+
+
 def ref_cookie_strict(v):
     """RFC 6265 section 4.2.1 cookie-string; list of (name, value) or None when not strictly valid"""
     res = []
@@ -429,6 +453,15 @@ def gen_semreq(rng, lvl, small=False, want_body=None):
             else:
                 v = rnd_bytes(rng, rng.randint(1, 6), bytes(range(0, 256)))
             args.append((k, v))
+    # names related by prefix / extension / case, in both orders: the look-up API must match a name exactly
+    # (caselessly), never by prefix, and return the FIRST such element
+    if rng.random() < 0.35:
+        base = rnd_bytes(rng, rng.randint(1, 3), b"abk")
+        fam = [base, base + rng.choice([b"x", b"2", b"-"]), base.upper(), base[:-1] + base[-1:].upper() + b"x", base[:-1]]
+        rng.shuffle(fam)
+        for k in fam[:rng.randint(2, 4)]:
+            # (an argument with empty name and no value is only representable before another '&': not generated here)
+            args.insert(rng.randint(0, len(args)), (k, rng.choice(([None] if k else []) + [b"", rnd_bytes(rng, 2, b"xyz019")])))
     version = rng.choice([b"HTTP/1.1", b"HTTP/1.1", b"HTTP/1.1", b"HTTP/1.0", b"HTTP/1.7"])
     fields = []
     for _ in range(rng.choice([0, 1, 2, 3, 5]) if not small else rng.choice([0, 1, 2])):
@@ -441,6 +474,12 @@ def gen_semreq(rng, lvl, small=False, want_body=None):
         else:
             v = rnd_bytes(rng, rng.randint(1, 12), VCHARS + b" \t" + bytes(range(0x80, 0x100)))
         fields.append((n, v.strip(b" \t")))
+    if rng.random() < 0.3:
+        fam = list(rng.choice([[b"Accept-Encoding", b"Accept"], [b"X-Ab", b"X-A", b"x-a"], [b"x-bc", b"x-b", b"X-B"],
+                               [b"Refererx", b"Referer", b"Refere"], [b"X-", b"X", b"x"]]))
+        rng.shuffle(fam)
+        for n in fam[:rng.randint(2, 3)]:
+            fields.insert(rng.randint(0, len(fields)), (n, rnd_bytes(rng, rng.randint(0, 5), b"abc019")))
     cookies = None
     if rng.random() < 0.35:
         cl = []
@@ -448,12 +487,23 @@ def gen_semreq(rng, lvl, small=False, want_body=None):
             n = rnd_bytes(rng, rng.randint(1, 5), b"abcSID_-")
             v = rnd_bytes(rng, rng.randint(0, 6), b"xyz012345%/:") if rng.random() < 0.85 else b""
             cl.append((n, v))
+        if rng.random() < 0.4:
+            base = rnd_bytes(rng, rng.randint(1, 3), b"sid")
+            fam = [base + b"id", base, base.upper()]
+            rng.shuffle(fam)
+            for n in fam[:2]:
+                cl.insert(rng.randint(0, len(cl)), (n, rnd_bytes(rng, rng.randint(0, 3), b"xyz012")))
         cookies = (rng.randint(0, len(fields)), cl)
+        if rng.random() < 0.3:
+            # a field whose name merely starts with "Cookie", sent BEFORE the Cookie field: not a cookie source
+            fields.insert(0, (rng.choice([b"Cookie2", b"cookiex"]), b"$Version=1"))
+            cookies = (cookies[0] + 1, cl)
     need_host = version != b"HTTP/1.0" and (lvl > -3 or rng.random() < 0.7)
     if need_host:
-        fields.insert(rng.randint(0, len(fields)), (b"Host", rng.choice([b"h", b"example.org:8080", b"[::1]"])))
-        if cookies is not None:
-            cookies = (rng.randint(0, len(fields)), cookies[1])
+        hpos = rng.randint(0, len(fields))
+        fields.insert(hpos, (b"Host", rng.choice([b"h", b"example.org:8080", b"[::1]"])))
+        if cookies is not None and hpos < cookies[0]:
+            cookies = (cookies[0] + 1, cookies[1])
     body = None
     wb = want_body if want_body is not None else (rng.random() < 0.2)
     if wb and method not in (b"HEAD",):
@@ -580,7 +630,14 @@ class Spec:
                          "Mhd.C02.field_inv_start", "Mhd.C02.field_inv2_start",
                          "Mhd.C02.reqline_split_independent", "Mhd.C02.reqline_any_two_segmentations",
                          "Mhd.C02.field_split_independent", "Mhd.C02.field_any_two_segmentations",
-                         "Mhd.C02.strings_stable", "Mhd.C02.reqline_roundtrip_partial", "Mhd.C02.fields_roundtrip_partial"]
+                         "Mhd.C02.strings_stable", "Mhd.C02.reqline_roundtrip_partial", "Mhd.C02.fields_roundtrip_partial",
+                         "Mhd.C02.args_no_fault", "Mhd.C02.target_no_fault", "Mhd.C02.target_decoding_exact",
+                         "Mhd.C02.target_render_decode", "Mhd.C02.reqline_target_roundtrip_partial",
+                         "Mhd.C02.reqline_roundtrip_nc_partial", "Mhd.C02.reqline_post", "Mhd.C02.get_request_line_no_fault",
+                         "Mhd.C02.cookie_string_no_fault", "Mhd.C02.cookie_no_fault", "Mhd.C02.every_target_has_rendering",
+                         "Mhd.C02.cookies_roundtrip_partial", "Mhd.C02.cookie_header_roundtrip_partial",
+                         "Mhd.C02.reqline_target_roundtrip_all_levels_partial", "Mhd.C02.lookup_exact",
+                         "Mhd.C02.cookies_only_from_cookie_field"]
     trusted_base = ["Lean 4 kernel", "axioms: propext, Classical.choice, Quot.sound at most (audited per theorem)",
                     "hand-written model lean/Mhd/Model/Req*.lean tied to connection.c/internal.c/mhd_str.c by this run's correspondence",
                     "tools/props/C02.py translator (strictness thresholds, constants regenerated)",
@@ -756,6 +813,54 @@ class Spec:
             if len(failures) > 10:
                 return
 
+    def whitebox_lookup(self, ctx, failures, stats):
+        """MHD_lookup_connection_value_n / MHD_lookup_connection_value on fabricated element lists: every list of up to
+        2 (thorough: 3) elements over a pool of names related by prefix / extension / case / NUL, every key of the pool,
+        several kind masks; plus random longer lists.  Reference `ref_lookup` + model diff."""
+        pool = [b"", b"a", b"A", b"ab", b"aB", b"abc", b"a\x00", b"a\x00b", b"\xe9", b"\xc9"]
+        kinds = [1, 8]
+        vals = [None, b"", b"v"]
+        cases = []
+        ents = [(k, n) for k in kinds for n in pool]
+        maxn = 3 if ctx.tier == "thorough" else 2
+        for n in range(0, maxn + 1):
+            for combo in itertools.product(ents, repeat=n):
+                els = [(k, nm, vals[(i + len(nm)) % 3]) for i, (k, nm) in enumerate(combo)]
+                for key in pool:
+                    for mask in (1, 8, 9):
+                        cases.append((mask, key, els))
+        rng = ctx.rng
+        big = pool + [b"Cookie", b"cookie", b"Cookie2", b"COOKIE", b"Cooki", b"Accept", b"Accept-Encoding", b"id", b"idx", b"ID", b"Host", b"Hos", b"hostx"]
+        for _ in range(20000 if ctx.tier == "thorough" else 4000):
+            els = [(rng.choice([1, 2, 4, 8]), rng.choice(big), rng.choice([None, b"", b"v", b"w\x00w"])) for _ in range(rng.randint(1, 7))]
+            key = rng.choice(big) if rng.random() < 0.8 else rng.choice(els)[1] + rng.choice([b"", b"x", b"\x00"])
+            cases.append((rng.choice([1, 2, 4, 8, 3, 11, 15]), key, els))
+        lines = ["lookup %d %s%s" % (mask, hx(key), "".join(" %d %s %s" % (k, hx(n), "~" if v is None else hx(v)) for k, n, v in els))
+                 for mask, key, els in cases]
+        hout, hrc, herr, mout = self.run_pair(lines)
+        if hrc != 0:
+            bad = lines[len(hout)] if len(hout) < len(lines) else lines[-1]
+            failures.append(vlib.Failure("sanitizer", "conn/white-box: harness aborted in lookup", herr[-2000:], [bad], "conn"))
+            return
+        for line, (mask, key, els), h, m in zip(lines, cases, hout, mout):
+            found, val = ref_lookup(els, mask, key)
+            want = "no" if not found else "yes " + ("~" if val is None else hx(val))
+            if b"\x00" not in key:
+                z = None if (not found or val is None) else val.split(b"\x00")[0]
+                want += " z=" + ("~" if z is None else hx(z))
+            stats["wb_lookup"] += 1
+            stats["wb_lookup_found"] += 1 if found else 0
+            first = next((j for j, e in enumerate(els) if (e[0] & mask) and len(e[1]) == len(key) and e[1].lower() == key.lower()), len(els))
+            if any((e[0] & mask) and len(e[1]) > len(key) and e[1][:len(key)].lower() == key.lower() for e in els[:first]):
+                stats["wb_lookup_prefix_hazard"] += 1
+            if h != want:
+                failures.append(vlib.Failure("oracle", "conn/white-box: look-up differs from the reference",
+                                             "elements %r mask %d key %r: code answers %r, reference %r" % (els, mask, key, h, want), [line], "conn"))
+            elif h != m:
+                failures.append(vlib.Failure("diff", "conn/white-box: model/code differ on lookup", "code: %s | model: %s" % (h, m), [line], "conn"))
+            if len(failures) > 10:
+                return
+
     # ------------------------------------------------------------ daemon engine
     def daemon_cases(self, ctx, boost):
         rng = ctx.rng
@@ -900,6 +1005,28 @@ class Spec:
                         ok = False
             if ok and bodies.get(i, b"") != ex["body"] and (i < len(seen) - 1 or statuses[i:i + 1] == [200]):
                 ok = False
+            if ok:
+                # the look-up API: every probe the harness made must give the FIRST element of that kind whose name
+                # equals the key caselessly (NULL value / empty value / not found told apart); never a prefix match
+                probes = parse_lk(d.get("lk", "[]"))
+                if want_kv and not probes:
+                    failures.append(vlib.Failure("oracle", "conn/daemon: no look-up probes in the handler log", str(d), inp, "conn"))
+                    return
+                for k, key, res, zbad in probes:
+                    found, _ = ref_lookup(want_kv, k, key)
+                    idxs = [j for j, w in enumerate(want_kv) if (w[0] & k) and len(w[1]) == len(key) and w[1].lower() == key.lower()]
+                    exp = "-" if not found else ("~" if got_kv[idxs[0]][2] is None else got_kv[idxs[0]][2])
+                    stats["lk_probes"] += 1
+                    stats["lk_found"] += 1 if found else 0
+                    hazard = any((w[0] & k) and len(w[1]) > len(key) and w[1][:len(key)].lower() == key.lower()
+                                 for w in (want_kv[:idxs[0]] if idxs else want_kv))
+                    stats["lk_prefix_hazard"] += 1 if hazard else 0
+                    if res != exp or zbad:
+                        failures.append(vlib.Failure("oracle", "conn/daemon: look-up API result differs from the request sent (lvl=%d)" % case["lvl"],
+                                                     "request %d: look-up kind=%d key=%r gives %r%s, the request has %r ; elements sent: %r"
+                                                     % (i, k, key, res, " (and MHD_lookup_connection_value disagrees with _n)" if zbad else "", exp, want_kv),
+                                                     inp, "conn"))
+                        return
             stats["dm_requests"] += 1
             if not ok:
                 failures.append(vlib.Failure("oracle", "conn/daemon: handler view differs from the request sent (lvl=%d)" % case["lvl"],
@@ -962,7 +1089,9 @@ class Spec:
     # ------------------------------------------------------------ explore
     def explore(self, ctx, boost):
         failures = []
-        stats = {"wb_cases": 0, "wb_ok": 0, "wb_err": 0, "wb_more": 0, "wb_valid": 0, "dm_cases": 0, "dm_requests": 0, "dm_nospace": 0,
+        stats = {"wb_cases": 0, "wb_ok": 0, "wb_err": 0, "wb_more": 0, "wb_valid": 0, "wb_lookup": 0, "wb_lookup_found": 0,
+                 "wb_lookup_prefix_hazard": 0, "lk_probes": 0, "lk_found": 0, "lk_prefix_hazard": 0,
+                 "dm_cases": 0, "dm_requests": 0, "dm_nospace": 0,
                  "dm_by_level": {}, "dm_by_arena": {}}
         # corpus first
         corpus_cases = []
@@ -987,13 +1116,18 @@ class Spec:
         self.whitebox_valid(ctx, failures, stats)
         ctx.note("white-box reference-domain cases: %d in %.1fs" % (stats["wb_valid"], ctx.elapsed() - t0))
         t0 = ctx.elapsed()
+        self.whitebox_lookup(ctx, failures, stats)
+        ctx.note("white-box look-up cases: %d (%d found, %d with an earlier element that has the key as a proper prefix) in %.1fs"
+                 % (stats["wb_lookup"], stats["wb_lookup_found"], stats["wb_lookup_prefix_hazard"], ctx.elapsed() - t0))
+        t0 = ctx.elapsed()
         cases = self.daemon_engine(ctx, boost, failures, stats, corpus_cases)
-        ctx.note("daemon engine: %d exchanges, %d requests in %.1fs, %d failures" % (stats["dm_cases"], stats["dm_requests"], ctx.elapsed() - t0, len(failures)))
+        ctx.note("daemon engine: %d exchanges, %d requests in %.1fs, %d failures; look-up probes %d (%d found, %d prefix-hazard)"
+                 % (stats["dm_cases"], stats["dm_requests"], ctx.elapsed() - t0, len(failures), stats["lk_probes"], stats["lk_found"], stats["lk_prefix_hazard"]))
         for f in failures:
             f.signature = sig_strip(f.signature)
         sample = cases[len(cases) // 2] if cases else None
-        cov = {"evaluations": stats["wb_cases"] * 2 + stats["wb_valid"] + stats["dm_cases"],
-               "distinct_nontrivial": stats["wb_ok"] + stats["wb_valid"] + stats["dm_requests"],
+        cov = {"evaluations": stats["wb_cases"] * 2 + stats["wb_valid"] + stats["wb_lookup"] + stats["dm_cases"],
+               "distinct_nontrivial": stats["wb_ok"] + stats["wb_valid"] + stats["wb_lookup_found"] + stats["dm_requests"],
                "rule": "white-box: every string over the 16-symbol alphabet up to the stated length inside each template, fed in one piece and byte by byte "
                        "(model/code digest + in-harness split-independence oracle + ASan poison beyond received bytes); distinct_nontrivial counts "
                        "inputs on which a parser completed successfully + reference-domain cases + requests presented to the handler of the real daemon",
